@@ -100,6 +100,7 @@ pub fn plan(prop: &str, tier: Tier) -> Option<Plan> {
                 v.extend(thin_jobs("C03", if q { 40 } else { 128 }, if q { 3000 } else { 240_000 }, both));
                 v.push(jobb(sched_engine("tok8", "C03", 24), if q { 50_000 } else { 8_000_000 }, "all"));
                 v.push(jobb(sched_thin_engine("8b/8", "C03", 24), if q { 15_000 } else { 2_000_000 }, "all"));
+                v.push(jobb(sched_engine("big4k", "C03", 24), if q { 12_000 } else { 1_000_000 }, "all"));
                 v.push(jobb(sched_engine("tok8", "C03", 24), if q { 10_000 } else { 1_200_000 }, "nostd"));
                 v
             },
@@ -111,6 +112,7 @@ pub fn plan(prop: &str, tier: Tier) -> Option<Plan> {
             {
                 let mut v = sized_jobs("C08", if q { 48 } else { 128 }, if q { 6000 } else { 500_000 }, both);
                 v.push(jobb(sched_engine("tok8", "C08", 24), if q { 50_000 } else { 7_500_000 }, "all"));
+                v.push(jobb(sched_engine("big4k", "C08", 24), if q { 12_000 } else { 1_000_000 }, "all"));
                 v.push(jobb(sched_engine("tok8", "C08", 24), if q { 10_000 } else { 1_500_000 }, "nostd"));
                 v
             },
@@ -154,6 +156,8 @@ pub fn plan(prop: &str, tier: Tier) -> Option<Plan> {
                 job(MatrixEngine::new("C05"), if q { 60_000 } else { 40_000_000 }, "all"),
                 job(MatrixEngine::new("C05"), if q { 20_000 } else { 12_000_000 }, "nostd"),
                 job(eng::ctor::OverflowEngine, if q { 320 } else { 120_000 }, "all"),
+                // the same question with a 32-bit usize (Miri for i686 as the execution vehicle; skipped when unavailable)
+                job(eng::c16::C05M32Engine, if q { 64 } else { 2000 }, "all"),
                 job(eng::ctor::OverflowEngine, if q { 160 } else { 60_000 }, "nostd"),
             ],
         ),
